@@ -3,7 +3,7 @@
     (ethermint discards the temporary context and BaseApp recovers panics: [deliver]); they are the
     reasons why the caller's discard is necessary (defect D1 is about a caller — x/xibc's
     module-originated EVM call — that did not discard). *)
-From Teleport Require Import Base.Bytes Base.Outcome Model.Adapter Proofs.Adapter.
+From Teleport Require Import Base.Bytes Base.Outcome Model.Adapter Model.AdapterEvm Proofs.Adapter Proofs.AdapterEvm.
 Local Open Scope N_scope.
 
 Definition rx_rec (m : msg) (s : list msg) : outcome (list msg) := Ok (s ++ [m]).
@@ -42,5 +42,19 @@ Theorem C17_hook_total_refuted :
 Proof.
   exists {| l_addr := staking_addr; l_topics := []; l_data := [] |},
          {| l_addr := staking_addr; l_topics := [topic_of KDelegated]; l_data := [] |}, [].
+  repeat split; vm_compute; reflexivity.
+Qed.
+
+(** The hypothesis [wf_tx] of C17_attribution_end_to_end (only the system contract's own code runs at a
+    system address — established by the adapters' InitGenesis, which the harness runs) is necessary: were
+    other code deployed there, its events would be executed for whatever account they name.  Here the
+    "emitter" code sits at the staking address: no invocation of the Staking contract happened, yet a
+    delegation is made for the victim. *)
+Theorem C17_wf_tx_necessary_refuted :
+  exists t, wf_tx t = false /\ fr_inv (run_tx t) = [] /\
+            multi_hook rx_rec (fr_logs (run_tx t)) [] = (Ok tt, [MDelegate rx_d rx_v 7]).
+Proof.
+  exists {| tx_sender := repeat x22 20; tx_to := staking_addr;
+            tx_code := CEmit [topic_of KDelegated] (encode_event (EDelegated rx_d rx_v (Some 7))) |}.
   repeat split; vm_compute; reflexivity.
 Qed.
